@@ -73,7 +73,7 @@ class VerusResult:
 def extern_flags(names, deps=None):
     arts = {}
     if isinstance(deps, tuple):
-        deps, arts = deps
+        deps, arts = deps[0], deps[1]
     deps = deps or DEPS
     fl = []
     for n in names:
